@@ -24,7 +24,7 @@ fuzz_target!(|data: &[u8]| {
     if its.len() > 41 { return; }
     let build = |id: &str| -> Option<LedgerCase> {
         // each property's own input domain (C03's identity presumes no registered affiliates and no manual SfLA rows)
-        if mode % 4 == 3 {
+        if mode % 4 == 3 || id == "C02" {
             // superficial-loss scenario builder: head, 1..3 preamble events, the rest around the sale
             let npre = 1 + (mode as usize / 4) % 3;
             if its.len() < 1 + npre { return None; }
@@ -42,7 +42,7 @@ fuzz_target!(|data: &[u8]| {
         }
     };
     let mut obs = Obs::default();
-    let checks: [(&str, fn(&LedgerCase, &mut Obs) -> Verdict); 3] = [("C01", acbverif::props::c01::check), ("C03", acbverif::props::c03::check), ("C04", acbverif::props::c04::check_accept)];
+    let checks: [(&str, fn(&LedgerCase, &mut Obs) -> Verdict); 4] = [("C01", acbverif::props::c01::check), ("C02", acbverif::props::c02::check_window), ("C03", acbverif::props::c03::check), ("C04", acbverif::props::c04::check_accept)];
     let only = std::env::var("ACBVERIF_FUZZ_PROP").ok();
     for (id, f) in checks {
         if only.as_deref().map(|o| o != id).unwrap_or(false) { continue; }
